@@ -60,6 +60,9 @@ CLAIMED = {
  "C19": ("exploration", "restart / fork simulation for all nine structures: seeded prefix (with failed inserts), clear(), continuation applied in lock-step to a fresh instance whose injected RNG stream is aligned to the cleared instance's position; clones taken at a seeded instant, mutated in both directions",
          "clear() is a restart that keeps only the configuration and clone() a fork at an arbitrary instant; the instant and (cuckoo, reservoir) the alignment of the RNG stream are the simulator's choices. After clear() and after every continuation step both instances must give identical operation results and identical answers on the structure's full observer set; is_empty() is compared with the number of successful additions.",
          "Observer sets: filters query over <= 32 keys + len + is_empty; CMS query_point; HLL registers/count; T-Digest n_centroids, 33 quantiles, 33 cdf values, aggregates (bit-exact); reservoir contents; LossyCounter n and three sorted queries; CMSHeap sorted iter."),
+ "C11": ("exploration", "allocator seam: a counting global allocator attributes live heap bytes to the structure while seeded workloads (including failed inserts and clear()) run; bound F*documented+512 B at every decade of stream length, no-growth test across decades, zero after drop",
+         "Resource accounting through the allocator the simulator owns: live bytes are read after construction, at 10^2..10^5 (thorough 10^6) elements, after failed inserts, after clear() and after drop, over a grid of configurations (fingerprint / remainder widths 2..64).",
+         "Constant factors 1.5 (bit-packed tables) / 4 (Vec, HashMap, BTreeSet backed) plus 512 B; the no-growth test (a decade more data, at most twice the memory) is independent of them; LossyCounter is checked against its documented O(width * (H(n/width)+1)) entries only."),
 }
 
 PENDING = {}
